@@ -126,8 +126,32 @@ impl Case for MatCase {
     }
 }
 
-fn vecmat<B: Backend>(rows: usize, cols: usize, a: &[i64]) -> VecMatrix<B::T> {
+fn vecmat<B: Backend>(rows: usize, cols: usize, a: &[i64]) -> VecMatrix<B::T>
+where
+    for<'a> &'a B::T: ScalarPtr<B::T>,
+{
     let mut m = VecMatrix::<B::T>::new(rows, cols);
+    // a quarter of the matrices (chosen by a hash of the entries) are values with a HISTORY: other
+    // entries first, every routine once, then the final entries through IndexMut and two row swaps
+    if h64(&(rows, cols, a)) % 4 == 0 {
+        for i in 0..rows {
+            for j in 0..cols {
+                m[i][j] = B::lift(if (i + j) % 2 == 0 { a[i * cols + j].wrapping_add(1) % 1000 } else { 0 });
+            }
+        }
+        let _ = guarded(|| {
+            let _ = m.rank();
+            let _ = m.null_space_matrix();
+            if rows == cols {
+                let _ = m.determinant();
+                let _ = m.inverse();
+            }
+            let _ = m.clone();
+        });
+        if rows >= 2 {
+            m.swap_rows(0, rows - 1);
+        }
+    }
     for i in 0..rows {
         for j in 0..cols {
             m[i][j] = B::lift(a[i * cols + j]);
@@ -653,6 +677,29 @@ fn check_pgraph(c: &GraphCase, obs: &mut Obs) -> Result<(), String> {
             (v, (0..c.dim).map(|i| p[(i, 0)].clone()).collect())
         })
         .collect();
+    // positions are cached inside the graph value: the answers must not depend on the order of the
+    // queries, on repetition, or on whether a clone is asked
+    {
+        let g2 = PeriodicGraph::from(c.edges.iter().map(|(h, t, s)| {
+            let mut sh = VecMatrix::<i64>::new(c.dim, 1);
+            for i in 0..c.dim {
+                sh[i][0] = s[i];
+            }
+            VectorLabelledEdge::make(*h, *t, sh)
+        }));
+        for round in 0..2 {
+            for &v in vs.iter().rev() {
+                let p = g2.position(v);
+                let q: Vec<BigRational> = (0..c.dim).map(|i| p[(i, 0)].clone()).collect();
+                ensure!(q == pos[&v], "position({}) = {:?} when the vertices are queried in descending order (round {}), {:?} in ascending order", v, q, round + 1, pos[&v]);
+            }
+        }
+        for &v in vs.iter() {
+            let p = g.position(v);
+            let q: Vec<BigRational> = (0..c.dim).map(|i| p[(i, 0)].clone()).collect();
+            ensure!(q == pos[&v], "position({}) changes when it is asked a second time: {:?} then {:?}", v, pos[&v], q);
+        }
+    }
     // first vertex pinned at the origin
     ensure!(pos[&vs[0]].iter().all(|x| x.is_zero()), "first vertex is not placed at the origin: {:?}", pos[&vs[0]]);
     // barycentric equation at every vertex over the deduplicated canonical edge set the graph reports
